@@ -30,6 +30,8 @@ enum : uint16_t {
     E_FLUSH_OUT, // a=probe id
     E_PROBE_IN, // a=probe id b=call id (Sink::send() of a probe sink)
     E_PROBE_OUT, // a=probe id b=call id
+    E_SIGNAL_RX, // a=sink id b=call id s=content (a receiver object in the main thread got a signal sink's signal)
+    E_PUMPED, // the main thread has delivered everything queued for the receiver object
 };
 
 } // namespace tsim
